@@ -80,11 +80,24 @@ func (ms *memstore) Get(baseUrl HttpBaseUrl, bucket string, filename string) (*s
 func (ms *memstore) GetMeta(baseUrl HttpBaseUrl, bucket string, filename string) (*storage.Object, error) {
 	f := ms.find(bucket, filename)
 	if f != nil {
-		meta := f.meta
+		meta := cloneMeta(f.meta)
 		InitMetaWithUrls(baseUrl, &meta, bucket, filename, uint64(len(f.data)))
 		return &meta, nil
 	}
 	return nil, nil
+}
+
+// cloneMeta returns a copy of meta that does not share the user metadata map with it, so that a caller
+// (or another object made from it) mutating the copy cannot change the stored object.
+func cloneMeta(meta storage.Object) storage.Object {
+	if meta.Metadata != nil {
+		m := make(map[string]string, len(meta.Metadata))
+		for k, v := range meta.Metadata {
+			m[k] = v
+		}
+		meta.Metadata = m
+	}
+	return meta
 }
 
 func (ms *memstore) Add(bucket string, filename string, contents []byte, meta *storage.Object) error {
@@ -137,7 +150,7 @@ func (ms *memstore) Copy(srcBucket string, srcFile string, dstBucket string, dst
 	}
 
 	// Copy with metadata
-	meta := src.meta
+	meta := cloneMeta(src.meta)
 	meta.TimeCreated = "" // reset creation time on the dest file
 	err := ms.Add(dstBucket, dstFile, src.data, &meta)
 	if err != nil {
